@@ -8,7 +8,7 @@ use digital_test_runner::TestCase;
 pub const META_C15: Meta = Meta {
     id: "C15",
     level: "exploration",
-    rule: "Four monitors per case (profiles `flow`+`expand`+`virtual`, 0-5 declare statements, some programs using random with the seed pinned through the hook, ~40% static programs): (1) re-parse: the same text is parsed and bound 6 times in one process (fresh HashMap RandomState each time) - all TestCase values must be ==, with identical `signals` order and identical Display; a digest of (Display, signal order, row stream) is also written per case and the orchestrator compares the digests produced by two separate processes (the dev-profile and release-profile shards run the same cases); (2) re-iterate: 3 iterations of one &TestCase with fresh devices replaying one script (one of them entered through the deprecated alias run_iter, one iterating a clone() of the test without ever calling vars() - all other runs call vars() before the first next() and after every step) give identical item streams, vars() and driver call logs; (2b) abandon: an iterator is dropped after a random number of steps (possibly inside a C/X expansion), the next full iteration must equal the first; (3) interleave: 2-4 iterators over one &TestCase, each with its own device, next() interleaved by round-robin / sequential / PRNG schedules - every stream equals the solo stream; (4) static: try_iter_static().is_ok() iff the model reads no outputs (scope rule of C11), and then its (inputs incl. changed, expected, line) stream equals the projection of every dynamic run against 4 devices (empty layout, all outputs unique numbers, all Z, permuted subset with X), error items at the same index; 6% of the cases carry a planted variable that is in scope, never assigned on the executed path and named like a device output (such a program reads no outputs), and the static stream consumed through step_by(2..4) must deliver every k-th item of the plain stream, and try_iter(&mut static_test::Driver) (the crate's own zero-sized driver handed to the dynamic entry point) must deliver the static stream too. Non-trivial = >= 2 virtual signals, or >= 2 interleaved iterators with >= 3 rows each under a non-sequential schedule, or a static program with a C/X expansion.",
+    rule: "Four monitors per case (profiles `flow`+`expand`+`virtual`, 0-5 declare statements, some programs using random with the seed pinned through the hook, ~40% static programs): (1) re-parse: the same text is parsed and bound 6 times in one process (fresh HashMap RandomState each time) - all TestCase values must be ==, with identical `signals` order and identical Display; a digest of (Display, signal order, row stream) is also written per case and the orchestrator compares the digests produced by two separate processes (the dev-profile and release-profile shards run the same cases); (2) re-iterate: 3 iterations of one &TestCase with fresh devices replaying one script (one of them entered through the deprecated alias run_iter, one iterating a clone() of the test without ever calling vars() - all other runs call vars() before the first next() and after every step) give identical item streams, vars() and driver call logs; (2b) abandon: an iterator is dropped after a random number of steps (possibly inside a C/X expansion), the next full iteration must equal the first; (3) interleave: 2-4 iterators over one &TestCase, each with its own device, next() interleaved by round-robin / sequential / PRNG schedules - every stream equals the solo stream; (4) static: try_iter_static().is_ok() iff the model reads no outputs (scope rule of C11), and then its (inputs incl. changed, expected, line) stream equals the projection of every dynamic run against 4 devices (empty layout, all outputs unique numbers, all Z, permuted subset with X), error items at the same index; 6% of the cases carry a planted variable that is in scope, never assigned on the executed path and named like a device output (such a program reads no outputs), and the static stream consumed through step_by(2..4) must deliver every k-th item of the plain stream (count() and last() on it must agree too), and try_iter(&mut static_test::Driver) (the crate's own zero-sized driver handed to the dynamic entry point) must deliver the static stream too. Non-trivial = >= 2 virtual signals, or >= 2 interleaved iterators with >= 3 rows each under a non-sequential schedule, or a static program with a C/X expansion.",
     assumptions: &["identical device scripts give identical answers (pure function of call index and signal)"],
     quick_cases: 40000,
     thorough_cases: 500000,
@@ -462,6 +462,28 @@ pub fn c15(case_seed: u64, acc: &mut Acc) {
                             ));
                         }
                         acc.event("static_step_by_streams_compared", 1);
+                    }
+                }
+                // ... and count() / last() on it agree with the plain stream
+                digital_test_runner::verif_hooks::set_seed_override(Some(seed));
+                let cl = guarded(|| {
+                    let c = tc.try_iter_static().map(|it| it.count()).unwrap_or(usize::MAX);
+                    let l = tc.try_iter_static().ok().and_then(|it| it.last()).map(|r| r.map(|row| row.line).map_err(|e| err_chain(&e)));
+                    (c, l)
+                });
+                digital_test_runner::verif_hooks::set_seed_override(None);
+                let _ = digital_test_runner::verif_hooks::take_draw_log();
+                match cl {
+                    Err(p) => viol!(Finding::new(p.signature(), format!("count()/last() on the static iterator panicked: {p:?}"))),
+                    Ok((c, l)) => {
+                        acc.evaluations += 2;
+                        let want_last = sitems.last().map(|i| i.as_ref().map(|x| x.line).map_err(|e| e.clone()));
+                        if c != sitems.len() || l != want_last {
+                            viol!(Finding::new(
+                                "static-adaptor-item-differs",
+                                format!("try_iter_static(): count() = {c}, last() = {l:?}; the plain stream has {} items, the last one {want_last:?}", sitems.len()),
+                            ));
+                        }
                     }
                 }
             }
